@@ -2,7 +2,8 @@ SPECIFICATION Spec
 CONSTANTS
   NWorkers = 3
   MaxChunks = 1
+  Protocol = "fixed"
   FaultTasks = 0
   SetupIds = {"inplace3", "mixed3"}
-INVARIANTS NeverLost ReadOnlyUntouched OthersUntouched DoneClean DestinationsComplete NoDescriptorLeak
+INVARIANTS NeverLost ReadOnlyUntouched OthersUntouched DoneClean NoLeftoverBackup DestinationsComplete NoDescriptorLeak
 CHECK_DEADLOCK FALSE
